@@ -45,9 +45,13 @@
 (*                   ParsePacket, whatever the read sizes                  *)
 (*  Progress         every Read call with len(p) > 0 delivers octets or    *)
 (*                   ends the stream                                       *)
-(* FixEof = FALSE models partialLengthReader.Read as it is: with a         *)
-(* "with-data" underlying reader NoSilentTruncation FAILS (documented      *)
-(* counterexample, reproduced on the real code by the harness).            *)
+(* FixEof = TRUE models partialLengthReader.Read as it is since the repair *)
+(* of finding X03-R1 (io.EOF from the underlying reader with octets of the *)
+(* chunk outstanding, or a further length due, is io.ErrUnexpectedEOF).    *)
+(* FixEof = FALSE is the earlier code (only n < toRead was converted):     *)
+(* with a "with-data" underlying reader NoSilentTruncation FAILS there --  *)
+(* PGPFramingStream_DocEof.cfg keeps that counterexample as documentation; *)
+(* it is never expected on the code.                                       *)
 (***************************************************************************)
 EXTENDS PGPFraming
 
@@ -55,7 +59,8 @@ CONSTANTS Sizes, MaxWrites,      \* Write sizes and number of Write calls
           ReadSizes,             \* len(p) of Read calls
           EofStyles,             \* subset of {"separate", "with-data"}
           CutAll,                \* explore every cut point of the stream
-          FixEof, FixShort,      \* proposed repairs (FALSE: the code as it is)
+          FixEof,                \* TRUE: the code as it is (X03-R1 repaired); FALSE: the earlier reader (documentation)
+          FixShort,              \* proposed repair of X03-W1 (FALSE: the code as it is)
           Tag,
           Crafted                \* crafted streams (segment lists) for SpecCrafted
 
@@ -124,8 +129,8 @@ RStep(w, r0, k, sty, fixEof) ==
            r2 == [r EXCEPT !.rem = rem2, !.off = r.off + n, !.got = Norm(r.got \o Slice(w, r.off, n))] IN
        IF ~eof THEN r2
        ELSE IF r.span THEN [r2 EXCEPT !.st = IF rem2 # 0 THEN "uneof" ELSE "eof"]       \* spanReader: l.n > 0 && err == io.EOF
-       ELSE IF fixEof THEN [r2 EXCEPT !.st = IF rem2 # 0 \/ r.partial THEN "uneof" ELSE "eof"]
-       ELSE [r2 EXCEPT !.st = IF n < toRead THEN "uneof" ELSE "eof"]                    \* n < toRead && err == io.EOF
+       ELSE IF fixEof THEN [r2 EXCEPT !.st = IF rem2 # 0 \/ r.partial THEN "uneof" ELSE "eof"]   \* err == io.EOF && (remaining > 0 || isPartial)
+       ELSE [r2 EXCEPT !.st = IF n < toRead THEN "uneof" ELSE "eof"]                    \* before the repair: n < toRead && err == io.EOF
 
 Open(m, sty) == /\ phase = "closed"
                 /\ cut' = m /\ style' = sty
